@@ -17,7 +17,9 @@ ID = "C09"
 LEVEL = "exploration"
 RULE = (
     "universe: 2 authors x kinds {0,3,1,10000,19999,30000,39999} x d in {absent, bare [\"d\"], \"\", a, ab, abc, e-acute} "
-    "x 4 timestamps. Small scope, exhaustive: for every pair of addresses (one focus address + one neighbour address "
+    "plus unusual legal d tags (extra elements that equal other d-values, several d tags, d tag after other tags) "
+    "x 4 timestamps, plus correctly signed versions that cannot be indexed (nested / null tag values) and must therefore leave "
+    "the stored versions alone. Small scope, exhaustive: for every pair of addresses (one focus address + one neighbour address "
     "chosen to be confusable with it - substring d-values, absent vs empty d, other kind / author) every arrival "
     "ORDER (all permutations) of histories of <= 5 events with in-order, out-of-order and equal timestamps. Beyond that, "
     "seeded random histories of 15-40 events over the whole universe. Every step is judged on fresh dumps. "
@@ -31,10 +33,13 @@ ASSUMPTIONS = [
     "LMDB backend over /verif/shim (judged after writer idle); SQL = SQLite",
 ]
 MIN_NONTRIVIAL = {"quick": 400, "thorough": 4000}
-REQUIRED_COUNTERS = ["clause.older_removed", "clause.newest_kept", "clause.frame"]
+REQUIRED_COUNTERS = ["clause.older_removed", "clause.newest_kept", "clause.frame", "clause.refused_version_frame", "clause.odd_d_tag"]
 SHARD_TIMEOUT = {"quick": 500, "thorough": 3000}
 KINDS = [0, 3, 1, 10000, 19999, 30000, 39999]
 DVALS = [None, "BARE", "", "a", "ab", "abc", "é"]
+# legal but unusual d tags: further elements after the value (the address is the FIRST value), several d tags
+# (the first one counts), other tags before the d tag
+ODD_DVALS = [("x", "a"), ("y", "ab", "abc"), ("a", "x"), ("", "a"), "MULTI:a,ab", "MULTI:x,a", "AFTER:a", "AFTER:ab"]
 TS = [gen.T0 + 5, gen.T0 + 10, gen.T0 + 20, gen.T0 + 20]
 
 
@@ -49,13 +54,25 @@ def plan(tier, seed):
     return out
 
 
-def mk(key, kind, d, ts, n):
+def mk(key, kind, d, ts, n, poison=None):
     tags = []
     if kind >= 30000:
         if d == "BARE":
             tags = [["d"]]
+        elif isinstance(d, tuple):
+            tags = [["d"] + list(d)]
+        elif isinstance(d, str) and d.startswith("MULTI:"):
+            tags = [["d", x] for x in d[6:].split(",")]
+        elif isinstance(d, str) and d.startswith("AFTER:"):
+            tags = [["t", "a"], ["e", "00" * 32], ["d", d[6:]]]
         elif d is not None:
             tags = [["d", d]]
+    if poison == "unhashable":
+        tags = tags + [["p", ["x"]]]  # correctly signed; cannot be indexed
+    elif poison == "dict":
+        tags = tags + [["e", {"x": 1}]]
+    elif poison == "huge-kind-tag":
+        tags = tags + [["k", None]]
     return ref.make_event(key, kind=kind, created_at=ts, tags=tags, content="v%d" % n)
 
 
@@ -68,8 +85,9 @@ def perm_histories(r, count):
         kind = r.choice(KINDS[3:] + [0, 3])
         k = r.choice(keys)
         if kind >= 30000:
-            d1 = r.choice(DVALS)
-            d2 = r.choice([x for x in DVALS if x != d1])
+            pool = DVALS + ODD_DVALS if r.random() < 0.5 else DVALS
+            d1 = r.choice(pool)
+            d2 = r.choice([x for x in pool if x != d1])
             neigh = (k, kind, d2) if r.random() < 0.7 else (r.choice(keys), r.choice([30000, 39999]), d1)
         else:
             d1 = None
@@ -84,6 +102,11 @@ def perm_histories(r, count):
                 evs.append(mk(neigh[0], neigh[1], neigh[2], r.choice(TS), n))
         n += 1
         evs[r.randrange(len(evs))] = mk(neigh[0], neigh[1], neigh[2], r.choice(TS), n)
+        if r.random() < 0.3:
+            # a version that the store may have to refuse half way (after it looked for what it supersedes)
+            j = r.randrange(len(evs))
+            n += 1
+            evs[j] = mk(k, kind, d1, max(TS) + r.choice([0, 5]), n, poison=r.choice(["unhashable", "dict", "huge-kind-tag"]))
         perms = list(itertools.permutations(range(size)))
         if size == 5:
             perms = r.sample(perms, 40)
@@ -97,7 +120,8 @@ def random_history(r, n):
     evs = []
     for i in range(n):
         kind = r.choice(KINDS)
-        evs.append(mk(r.choice(keys), kind, r.choice(DVALS), r.choice(TS + [gen.T0 + 1, gen.T0 + 30]), 1000 + i))
+        evs.append(mk(r.choice(keys), kind, r.choice(DVALS + ODD_DVALS if i % 3 == 0 else DVALS), r.choice(TS + [gen.T0 + 1, gen.T0 + 30]), 1000 + i,
+                      poison=r.choice(["unhashable", "dict", "huge-kind-tag"]) if r.random() < 0.08 else None))
     return evs
 
 
@@ -126,6 +150,10 @@ def make_judge(backend, history, counters, viols, nontrivial):
                               "msg": "[%s] accepting kind %d d=%r (ok=%s) removed %s event kind %d d=%r created_at %d"
                                      % (backend, E["kind"], ref.d_value(E) if E["kind"] >= 30000 else None, st.ok, why, v["kind"],
                                         ref.d_value(v) if v["kind"] >= 30000 else None, v["created_at"]), "replay": rp})
+        if A is not None and not accepted and any(ref.address(e) == A for e in pe.values()):
+            bump("refused_version_frame")
+        if any(len(t) > 2 or t[0] != "d" for t in E["tags"]) and A is not None and len(A) == 3:
+            bump("odd_d_tag")
         if A is None or not accepted:
             return
         same_prev = [e for e in pe.values() if ref.address(e) == A]
@@ -171,6 +199,11 @@ def classify_relation(E, v):
         has_d = any(t and t[0] == "d" for t in E["tags"])
         if not has_d:
             return "new-has-no-d-tag"
+        vd = next((t for t in v["tags"] if t and t[0] == "d"), [])
+        if de in vd[2:]:
+            return "d-equals-extra-element"
+        if any(t[0] == "d" and len(t) > 1 and t[1] == de for t in v["tags"][1:] if t):
+            return "d-equals-later-d-tag"
         if dv in de and dv != de:
             return "d-substring"
         if de in dv and dv != de:
